@@ -55,7 +55,8 @@ def render_value(rng, v, fancy):
     while i < len(v):
         c = v[i]
         # a single blank between two non-blank, non-backslash characters may be written as  \ NL
-        if c == " " and 0 < i < len(v) - 1 and v[i - 1] not in " \\\t" and v[i + 1] not in " \t" and rng.random() < 0.5:
+        # (Spec/Layout.v VSBreak: the character after the broken blank may itself be a blank -- the continued line then begins with blanks)
+        if c == " " and 0 < i < len(v) - 1 and v[i - 1] not in " \\\t" and (v[i + 1] not in " \t" or (v[i + 1] == " " and v[i + 1:].strip(" ") != "")) and rng.random() < 0.5:
             nxt = v[i + 1]
             if nxt not in "#;[\n\\":
                 out.append("\\" + rng.choice(["", "", " ", "  "]) + "\n")
